@@ -764,7 +764,7 @@ def am2q(a: np.ndarray, m: np.ndarray, frame: str = 'ENU') -> np.ndarray:
 
     """
     R = am2DCM(a, m, frame=frame)
-    q = dcm2quat(R)
+    q = shepperd(R.T)       # Same convention as dcm2quat(R), without its division by zero for half-turns
     return q
 
 def acc2q(a: np.ndarray, return_euler: bool = False) -> np.ndarray:
